@@ -1506,6 +1506,13 @@ class Inliner:
                 pre.append(asg)
         rn = _Rename(names, exprmap)
         body = [rn.visit(st) for st in body]
+        hcls_ = self.index[q][1]
+        if hcls_ is not None and not (self._cur or "").startswith(self.index[q][3] + "." + hcls_.name + "."):
+            # private names of the helper's class are spelled out where its body now stands outside of the class
+            for st in body:
+                for n_ in ast.walk(st):
+                    if isinstance(n_, ast.Attribute) and n_.attr.startswith("__") and not n_.attr.endswith("__"):
+                        n_.attr = "_" + hcls_.name.lstrip("_") + n_.attr
         return body, exprmap, pre, True
 
     def _inline(self, stmt, call, site, mode):
